@@ -38,19 +38,19 @@ func C06(r *core.Report) {
 		}
 	}
 	r.Floor("C06.R0", 5)
-	r.Floor("C06.R1", 3)
-	r.Floor("C06.R2", 2)
+	r.Floor("C06.R1", 2)
+	r.Floor("C06.R2", 1)
 	r.Floor("C06.R3", 1)
 	r.Floor("C06.R4", 1)
-	r.Floor("C06.R5", 2)
-	r.Floor("C06.R6", 3)
+	r.Floor("C06.R5", 1)
+	r.Floor("C06.R6", 2)
 	r.Floor("C06.R7", 3)
 	chainEndExact(r, "C06.R8")
 	c06FlagAccessors(r)
 	c06DedupAfterSort(r)
 	c06NoEntryPooling(r)
 	r.Floor("C06.R10", 1)
-	r.Floor("C06.R9", 6)
+	r.Floor("C06.R9", 5)
 	r.Floor("C06.R8", 2)
 }
 
